@@ -135,19 +135,10 @@ def doPruneOrig (s : Sess) (m : List (String × String)) : Option (Sess × List 
   let s1 := { s with forest := f }
   some (s1, obsBlock s1)
 
-mutual
-def regroupT (lm : List (Option Nat)) : Tree → Tree
-  | node i _ ks => node i (binOf lm i) (regroupL lm ks)
-def regroupL (lm : List (Option Nat)) : List Tree → List Tree
-  | [] => []
-  | t :: ts => regroupT lm t :: regroupL lm ts
-end
-
 /-- save + load: the tree is re-read from the Newick text, own pixel lists are rebuilt from the
     label map in C order -/
 def doReload (s : Sess) : Option (Sess × List String) :=
-  let lm := labelMap s.forest s.n
-  let s1 := { s with forest := regroupL lm s.forest }
+  let s1 := { s with forest := reload s.forest s.n }
   some (s1, obsBlock s1)
 
 def ntreeLine (ts : Option (List NTree)) : String :=
